@@ -51,7 +51,8 @@ pub fn enumerate(prop: &str, tier: &str, f: &mut dyn FnMut(Case)) {
             gen::lists(l, f);
             gen::cut(l, f);
             gen::not(l, f);
-            gen::output(l, f);
+            // C05: an alternative that prints and then fails needs three leaves
+            gen::output(if prop == "C05" { 1 } else { l }, f);
             gen::builtins(l, f);
             gen::nfacts(if prop == "C10" { l + 1 } else { l }, f);
             gen::core(l, f);
@@ -176,7 +177,7 @@ pub fn judge(main_prop: &str, family: &str, prog: &Program, query: &T, rf: &RefR
                 break;
             }
         }
-        if st.out != r_out {
+        if !crate::refbuiltins::out_matches(&r_out, &st.out) {
             if after_none {
                 v.push(("C05".to_string(), cls("output-after-exhaustion"), format!("call {} (after 'no more') wrote {:?} — {}", i + 1, st.out, ctx())));
             } else {
@@ -237,7 +238,9 @@ fn renamings(p: &Program, query: &T) -> Vec<(&'static str, Program)> {
             })
         })
         .collect();
-    vec![("suffix", r1), ("query-names", r2), ("swap-xy", r3)]
+    // every clause gets names of its own (no name occurs in two clauses, nor in the query)
+    let r4: Program = p.iter().enumerate().map(|(ci, c)| per_clause(c, &|i, _| format!("$C{}v{}", ci, i))).collect();
+    vec![("suffix", r1), ("query-names", r2), ("swap-xy", r3), ("all-distinct", r4)]
 }
 
 pub fn worker(prop: &str, tier: &str) {
